@@ -56,7 +56,8 @@ theorem C14_source_delegation_and_poll :
       ("get_workable_slice_exact", "get_workable_slice_exact", 1), ("get_workable_slice_multiple_of", "get_workable_slice_multiple_of", 1),
       ("peek_available", "peek_available", 1), ("peek_ref", "peek_ref", 1), ("peek_slice", "peek_slice", 1), ("pop", "pop", 1),
       ("pop_move", "pop_move", 1), ("push", "push", 1), ("push_slice", "push_slice", 1), ("push_slice_clone", "push_slice_clone", 1)] ∧
-    Gen.pinPoll = "{letmutwaker_registered=false;letf_r=self.f_r.take();letf_m=self.f_m.take();loop{letres=ifR{letmutp=self.p.take().unwrap();letret=f_r.as_ref().unwrap()(self.iter,&mutp);ret.ok_or(p)}else{letp=self.p.take().unwrap();f_m.as_ref().unwrap()(self.iter,p)};matchres{Ok(r)=>{breakPoll::Ready(Some(r));}Err(p)=>{self.f_r=f_r;self.f_m=f_m;self.p=Some(p);}}ifwaker_registered{breakPoll::Pending;}self.iter.register_waker(cx.waker());waker_registered=true;}}" := by
+    Gen.pollShape = { hasLoop := true, attemptSites := 2, registerSites := 1, readySites := 1, pendingSites := 1, restoresPayload := true,
+                      attemptBeforeRegister := true, pendingBeforeRegister := true } := by
   exact ⟨rfl, rfl⟩
 
 /-- Non-vacuity: full buffer, pending push, consumer frees a slot, the same future completes and stores the value once. -/
